@@ -39,6 +39,7 @@ type Contract struct {
 	MayPanic  bool
 	NoIndexPanic   bool // with may_panic: only out-of-range indexing/slicing and division by zero are excluded
 	NoRuntimePanic bool // with may_panic: explicit panics and callee panics are allowed, Go run-time errors are not
+	DecImmutable bool // dec_values_immutable: as IntImmutable, for LegacyDec/BigDec values
 	IntImmutable bool // assumption: nobody mutates the big integer behind a math.Int value this function holds
 	Modifies  []CExpr
 	ModAll    bool
@@ -109,7 +110,7 @@ func NewContractSet() *ContractSet {
 }
 
 var keywords = map[string]bool{"func": true, "global": true, "requires": true, "ensures": true, "ensures_assumed": true, "uses": true, "pow10_max": true, "owns": true, "panics_iff": true, "panics_if": true, "panic_typ": true, "on_panic": true, "define": true,
-	"may_panic": true, "no_runtime_panic": true, "no_index_panic": true, "int_values_immutable": true, "modifies": true, "loop": true, "props": true, "trusted": true, "inline": true, "let": true, "witness": true,
+	"may_panic": true, "no_runtime_panic": true, "no_index_panic": true, "int_values_immutable": true, "dec_values_immutable": true, "modifies": true, "loop": true, "props": true, "trusted": true, "inline": true, "let": true, "witness": true,
 	"lemma": true, "pure": true, "package": true, "keeper_iface": true, "var": true, "hyp": true, "concl": true, "assert": true, "end": true}
 
 var funcHdr = regexp.MustCompile(`^func\s+(\([^)]*\)\.)?([A-Za-z0-9_$#\[\],./\-]+)\s*\(([^)]*)\)\s*(.*)$`)
@@ -331,6 +332,9 @@ func (cs *ContractSet) ParseContractText(file, pkg, text string, trusted bool) {
 				cur.MayPanic = true
 			case "int_values_immutable":
 				cur.IntImmutable = true
+			case "dec_values_immutable":
+				cur.IntImmutable = true
+				cur.DecImmutable = true
 			case "no_runtime_panic":
 				cur.NoRuntimePanic = true
 				cur.MayPanic = true
